@@ -106,7 +106,8 @@ class Result:
 
     def violation(self, key, what, case):
         """key identifies the failing input / call site (matched against known_findings)."""
-        if len(self.violations) < 20:
+        # at most 3 recorded per key (all are counted) so that one failing site cannot crowd out another
+        if self.hist.get("violation:" + key, 0) < 3 and len(self.violations) < 300:
             self.violations.append({"key": key, "what": what, "case": case})
         self.count("violation:" + key)
 
